@@ -11,7 +11,7 @@ CLAIMED = {
          "Exploration: every matrix of <=3 (quick) / <=4 (thorough) rows over all patterns of depth <=2 for bool, Opt[bool], (bool,bool) and a three-variant enum, plus random matrices over ints, strings, unit, tuples, a struct, enums and generic Opt[T] (depth <=3, <=6 rows) and destructuring lets; each program applies the match to ALL values of the scrutinee type over representative leaf domains that some row matches and to one unmatched value; stdout/end under miniGo must equal first-match semantics (failed match must fail at that point); ticked scrutinee detects double evaluation.",
          PROG_NOTE, "DESIGN.md §5 C06"),
  "C19": ("exhaustive enumeration of the compiler's name-encoding functions over a small identifier alphabet + directed collision programs + differential PBT with hostile identifier pools",
-         "Exploration: (1) go_ident/go_type_name_for/ref_struct_name/array_helper_fn_name/trait_impl_fn_name/inherent_method_fn_name on every identifier over {A,B,a,b,_,1} (len<=3/4) and every pair/(trait,type)/(type,method) combination: distinct entities must get distinct Go identifiers, user names must not come out as Go keywords/predeclared names; (2) 26 directed programs, one per collision family, must build and print the expected output; (1b) 120k/600k pseudo-random tuple types of depth <=5 (Vec/Ref/array/function components, package-qualified and generic-instance names): every struct name a legal Go identifier, distinct types distinct names; (3) ~50k/800k generated programs whose function/type/field/local names come from pools of Go keywords, predeclared identifiers, runtime-helper and temporary look-alikes must type-check as Go and behave as the (name-independent) reference interpreter says.",
+         "Exploration: (1) go_ident/go_type_name_for/ref_struct_name/array_helper_fn_name/trait_impl_fn_name/inherent_method_fn_name on every identifier over {A,B,a,b,_,1} (len<=3/4) and every pair/(trait,type)/(type,method) combination: distinct entities must get distinct Go identifiers, user names must not come out as Go keywords/predeclared names; (2) 28 directed programs (two of them across packages / through dyn), one per collision family, must build and print the expected output; (1b) 120k/600k pseudo-random tuple types of depth <=5 (Vec/Ref/array/function components, package-qualified and generic-instance names): every struct name a legal Go identifier, distinct types distinct names; (3) ~50k/800k generated programs whose function/type/field/local names come from pools of Go keywords, predeclared identifiers, runtime-helper and temporary look-alikes must type-check as Go and behave as the (name-independent) reference interpreter says.",
          PROG_NOTE, "DESIGN.md §5 C19"),
  "C03": ("generated accepted programs re-type-checked at every IR stage by independent checkers; single ill-typed statement injected at random positions must be rejected",
          "Exploration: (a) ~54k (quick) / ~880k (thorough) accepted generated programs: four independent IR type checkers (Core, Mono, Lift, ANF) must find every variable bound with the binder's type, every call/constructor/projection/operator/branch consistent with declared signatures, and no TParam/TVar/TApp residue after monomorphisation; (b) ~40k / 600k programs with one ill-typed statement of 28 kinds inserted at a random position in a random nested block must be rejected with an error diagnostic (never accepted, never a crash).",
